@@ -130,6 +130,7 @@ func Load(cfg Config) (*Program, error) {
 			tps = append(tps, pk.Types)
 		}
 	}
+	pinFset = p.Fset
 	p.pinPackages(tps)
 	pinStructs(tps)
 	fieldInvariantFuncs = p.ModuleFuncs()
